@@ -134,6 +134,12 @@ def gen_solve(rng):
     q = rng.rng(1, 40 if rng.chance(1, 5) else 9); p = q + rng.choice([0, 0, 1, 2, 5, 40]) if not rng.chance(1, 8) else max(1, q - rng.rng(1, 2))
     L = rng.choice([1, 2, 3, 4, 7, 8, 9, 64])
     x = [[rng.below(256) for _ in range(L)] for _ in range(q)]
+    if rng.chance(1, 3):
+        # unknowns drawn from the span of two symbols: equations whose non-null unknowns cancel get a NULL right-hand side
+        # (seed C18f: back-substitution on a pivot row whose constant term is still NULL but which holds further unknowns)
+        s1 = [rng.below(256) for _ in range(L)]; s2 = [rng.below(256) for _ in range(L)]
+        span = [[0] * L, s1, s2, [a ^ b for a, b in zip(s1, s2)]]
+        x = [list(span[rng.below(4)]) for _ in range(q)]
     kind = rng.below(5)
     A = []
     for i in range(p):
